@@ -13,8 +13,8 @@ built = {
          'All sequences of keys in every event form inside maps and record types up to a bound; the model rejects exactly the first key equal by (type, value) to an earlier one; replayed into the real validator', '6 C12'),
  'C13': ('TLA+ Rules.tla x RulesRef.tla lock step + marker/reference behaviours replayed into rules.NewRules',
          'All behaviours mixing two marker ids, forward/backward references, key/value positions, nested markers, invalid identifiers up to a bound; validator verdict compared at every event', '6 C13'),
- 'C14': ('TLA+ Rules.tla x RulesRef.tla lock step under small limits + behaviours replayed into rules.NewRules with the same limits',
-         'All documents up to a bound under several small limit configurations so that usage lies below, at and above each limit; rejection for a limit exactly when usage exceeds it', '6 C14'),
+ 'C14': ('TLA+ Rules.tla x RulesRef.tla lock step under small limits + behaviours replayed into rules.NewRules with the same limits; TLA+ DocSize.tla (document size over every read path; TLC invariants Counted, Exact) with every (document, limit) case decoded by the real decoders',
+         'All documents up to a bound under several small limit configurations so that usage lies below, at and above each limit (marker limit carried by either configuration field); rejection for a limit exactly when usage exceeds it. Document size: every sequence of value kinds (one per read path of the CBE reader) under every limit from 0 to beyond its size, through CBE, CTE and universal decoders and unmarshalers, from memory and from a reader', '6 C14'),
  'C15': ('TLA+ Rules.tla Forward(e) + TLC behaviours replayed into rules.NewRules with the next receiver recorded',
          'For every accepted event of every enumerated behaviour (and long random walks) the next receiver gets exactly Forward(e); nothing for rejected events; arguments delivered from a reusable volatile buffer', '6 C15'),
 }
